@@ -565,6 +565,39 @@ def run_z3(smt2, timeout_ms, want_model=False, portfolio=True):
                 pass
 
 
+def math_instances(formulas, limit=12):
+    """Ground instances of the facts about log10 / 10**x that the uninterpreted encoding lacks, at the terms that
+    occur in the query: 10**x > 0, log10(10**x) = x, and log10 strictly increasing on the positive reals."""
+    logs, pows = {}, {}
+    stack, seen = list(formulas), set()
+    while stack:
+        t = stack.pop()
+        if t.get_id() in seen:
+            continue
+        seen.add(t.get_id())
+        if z3.is_app(t) and t.num_args() == 1 and t.decl().kind() == z3.Z3_OP_UNINTERPRETED:
+            nm = t.decl().name()
+            if nm == 'log10':
+                logs[t.get_id()] = t
+            elif nm == 'pow10':
+                pows[t.get_id()] = t
+        if z3.is_quantifier(t):
+            continue
+        stack.extend(t.children())
+    out = []
+    L = sym.MATH_FUNCS['log10']
+    for p in list(pows.values())[:limit]:
+        out.append(p > 0)
+        out.append(L(p) == p.arg(0))
+    ls = list(logs.values())[:limit]
+    for i, a in enumerate(ls):
+        for b in ls[i + 1:]:
+            x, y = a.arg(0), b.arg(0)
+            out.append(z3.Implies(z3.And(x > 0, x < y), a < b))
+            out.append(z3.Implies(z3.And(y > 0, y < x), b < a))
+    return out
+
+
 def _prove_one(ground, foralls, guards, goal, timeout_ms, want_model):
     last = ('unknown', 'unknown', None)
     store = AxiomStore()
@@ -614,6 +647,8 @@ def _prove_one(ground, foralls, guards, goal, timeout_ms, want_model):
         for f in inst:
             s.add(f)
         for f in ax:
+            s.add(f)
+        for f in math_instances(list(base) + list(inst) + list(ax) + [goal]):
             s.add(f)
         s.add(z3.Not(goal))
         smt2 = s.to_smt2()
